@@ -64,13 +64,34 @@ func parseCC(spec string) pb.ConfChangeI {
 	return cc
 }
 
-// pendingApply: has the node handed out committed entries that the application has not
-// applied yet?  (Env.apply_before_snap_step: no MsgSnap is stepped meanwhile.)
-func (n *Node) pendingApply() bool {
+// pendingApply: has the node handed out committed entries that the application has not applied
+// yet, and is a configuration change among them?  Env.apply_before_snap_step: no MsgSnap is
+// stepped while a handed-out configuration change is unapplied (finding F9); schedules with the
+// strict flag postpone a MsgSnap behind any unapplied hand-out.
+func (n *Node) pendingApply() (some bool, confChange bool) {
+	var batches [][]*pb.Entry
 	if n.cfg.Async {
-		return len(n.app.applyQ) > 0
+		for _, m := range n.app.applyQ {
+			batches = append(batches, m.GetEntries())
+		}
+	} else if n.app.rd != nil && n.app.stage < 4 {
+		batches = append(batches, n.app.rd.CommittedEntries)
 	}
-	return n.app.rd != nil && n.app.stage < 4 && len(n.app.rd.CommittedEntries) > 0
+	for _, b := range batches {
+		for _, e := range b {
+			some = true
+			if e.GetType() != pb.EntryNormal {
+				confChange = true
+			}
+		}
+	}
+	return
+}
+
+// holdSnap: must a MsgSnap addressed to dst wait?
+func (c *Cluster) holdSnap(dst *Node) bool {
+	some, cc := dst.pendingApply()
+	return cc || (c.envStrict && some)
 }
 
 // exec runs one operation; a panic that escapes the recorded calls (HasReady, the state dump,
@@ -112,7 +133,7 @@ func (c *Cluster) execOp(op string) {
 			return
 		}
 		m := c.net[k%len(c.net)]
-		if dst := c.nodes[m.GetTo()]; dst != nil && dst.alive && m.GetType() == pb.MsgSnap && c.envStrict && dst.pendingApply() {
+		if dst := c.nodes[m.GetTo()]; dst != nil && dst.alive && m.GetType() == pb.MsgSnap && c.holdSnap(dst) {
 			return // postponed
 		}
 		c.deliver(k, f[0] == "dup")
@@ -131,8 +152,13 @@ func (c *Cluster) execOp(op string) {
 			}
 		}
 	case "appendthread":
+		// appendthread <node> [hold]: with hold the acknowledgement to the node itself is queued
 		if n := c.nodeArg(f[1]); n != nil && n.alive {
-			c.appendThread(n)
+			c.appendThread(n, len(f) > 2 && f[2] == "hold")
+		}
+	case "ackthread":
+		if n := c.nodeArg(f[1]); n != nil && n.alive {
+			c.ackThread(n)
 		}
 	case "applythread":
 		if n := c.nodeArg(f[1]); n != nil && n.alive {
@@ -271,7 +297,7 @@ func (c *Cluster) flush(rounds int) {
 	for r := 0; r < rounds && !c.over(); r++ {
 		busy := false
 		for _, n := range c.alive() {
-			if n.hasReady() || n.app.stage != 0 || len(n.app.appendQ) > 0 || len(n.app.applyQ) > 0 {
+			if n.hasReady() || n.app.stage != 0 || len(n.app.appendQ) > 0 || len(n.app.applyQ) > 0 || len(n.app.ackQ) > 0 {
 				busy = true
 				c.process(n)
 			}
@@ -280,7 +306,7 @@ func (c *Cluster) flush(rounds int) {
 		for i := 0; i < k && len(c.net) > 0 && !c.over(); i++ {
 			busy = true
 			m := c.net[0]
-			if dst := c.nodes[m.GetTo()]; dst != nil && dst.alive && m.GetType() == pb.MsgSnap && c.envStrict && dst.pendingApply() {
+			if dst := c.nodes[m.GetTo()]; dst != nil && dst.alive && m.GetType() == pb.MsgSnap && c.holdSnap(dst) {
 				c.process(dst)
 			}
 			c.deliver(0, false)
